@@ -835,5 +835,8 @@ fn main() {
     rep.sample(json!({"space": "I8Vec3/binary/L^2(256) x lane-isolation", "case": "lane 1 = (-128, -1), others background", "ops": "div => primitive panics (overflow) => glam must panic; wrapping_div => -128; checked_div => None"}));
     rep.sample(json!({"space": "U16Vec4/shift<i8>", "case": "v=[65535,..] count=-1", "expect": "panic iff overflow checks on, else masked shift"}));
     rep.sample(json!({"space": "I64Vec2/ternary/SMALL^3", "case": "clamp(min<=max), Sum/Product over sequences of length 0..3 with panic parity of the left fold"}));
+    // every operator trait impl of the tree (inventory from the rustdoc JSON): reference, assign and
+    // scalar forms agree with the by-value form decided above
+    harness::opforms::run(&mut rep, "ivec", harness::opforms::OPFORMS_IVEC);
     std::process::exit(rep.finish());
 }
